@@ -22,16 +22,22 @@ pub struct HistCheck {
 fn with_ghost(hcfg: HistCfg) -> proptest::strategy::BoxedStrategy<History> {
     use proptest::prelude::*;
     let ocfg = crate::gen::OrderGenCfg::all_types(crate::gen::Profile::Small, true);
-    (history(hcfg), any::<u16>(), crate::gen::order_spec(ocfg), 0u8..4)
-        .prop_map(|(mut h, at, spec, via)| {
-            h.ghost = Some(Ghost { at, spec, via });
+    let pairs = prop_oneof![3 => Just(0u32), 1 => crate::gen::size_class(hcfg.churn_pow)];
+    (history(hcfg), any::<u16>(), crate::gen::order_spec(ocfg), 0u8..4, pairs)
+        .prop_map(|(mut h, at, spec, via, pairs)| {
+            h.ghost = Some(Ghost { at, spec, via, pairs });
             h
         })
         .boxed()
 }
 
 fn general(t: Tier) -> HistCfg {
-    HistCfg::general(t.pick(40, 120))
+    let mut c = HistCfg::general(t.pick(40, 120));
+    // bulk sizes: up to 2^14 add+cancel pairs / 2^10 resting orders in the quick tier, 2^17 / 2^13
+    // in the thorough tier
+    c.churn_pow = t.pick(14, 17);
+    c.burst_pow = t.pick(10, 13);
+    c
 }
 
 fn no_rebuild(t: Tier) -> HistCfg {
@@ -93,8 +99,8 @@ pub const C01: HistCheck = HistCheck {
     cfg: general,
     nontrivial: |f| (f.partial_fills + f.replenishments) >= 1 && f.op_on_touched_order_or_second_match(),
     rule: "stateful histories (add / match / cancel / price move / quantity amend / price+quantity / replace / read / rebuild through 7 paths; all 7 order types; small and 64-bit-boundary quantity profiles incl. 0) interpreted on a real PriceLevel; after EVERY operation visible/hidden/count/total and the snapshot's figures are compared with the sums over iter_orders() and bounded by everything ever supplied. The histories also contain bulk operations (n add+cancel pairs / n resting orders under fresh ids, n up to ~1030), pairs of amendments moving quantity between two orders, matches whose taker id is a pool id, generators restored at boundary counters, and in half of the runs every Arc the API returns is kept alive. Snapshot figures are checked at snapshot-type reads and at the end of each history. Non-trivial = the history has a match that partially fills or replenishes an order and a later operation (amend, cancel, move, another match, rebuild) on that same order; distinct = 64-bit hash of the history.",
-    quick: 300_000,
-    thorough: 12_000_000,
+    quick: 200_000,
+    thorough: 6_000_000,
     twin_without_reads: false,
     assumptions: &["order.price == level price; ids unique among resting orders; sums fit in u64 (DESIGN §8)"],
 };
@@ -105,8 +111,8 @@ pub const C02: HistCheck = HistCheck {
     cfg: no_rebuild,
     nontrivial: |f| f.sweep_multi || f.multi_round_same_order || f.second_match_on_partial,
     rule: "stateful histories as C01 without rebuilds (one transaction-id generator per history); every match result is audited: executed+remaining==requested, is_complete<=>remaining==0, every transaction has quantity>0, the level price, the taker id, a maker resting at that moment (trace-driven model), the opposite side, a never-seen transaction id; lifetime fills of an order <= what it supplied (adjusted by amendments); filled_order_ids == makers that traded and are no longer listed. Plus MatchResult built incrementally (second generator: initial quantity and up to 12 appended transactions summing within it: remaining == initial - sum, is_complete <=> remaining == 0, executed_quantity() == sum after every append). The histories also contain bulk operations (n add+cancel pairs / n resting orders under fresh ids, n up to ~1030), pairs of amendments moving quantity between two orders, matches whose taker id is a pool id, generators restored at boundary counters, and in half of the runs every Arc the API returns is kept alive. Non-trivial = a match that trades >=2 orders or the same order in >=2 rounds, or a second match on a previously partially filled order.",
-    quick: 300_000,
-    thorough: 12_000_000,
+    quick: 200_000,
+    thorough: 6_000_000,
     twin_without_reads: false,
     assumptions: &["the model follows the observed makers, so queue-order deviations (C04) do not affect this check"],
 };
@@ -117,8 +123,8 @@ pub const C04: HistCheck = HistCheck {
     cfg: c04_cfg,
     nontrivial: |f| f.match_with_3_resting && f.matches >= 2 && f.match_after_event,
     rule: "stateful histories of adds, matches of all size kinds, cancels, re-adds of earlier ids, same-price amendments (positive quantities, all 7 types; bulk add+cancel churn up to ~1030 pairs; in the boundary profile sums may exceed 64 bits since this oracle never reads the aggregates) ending in a draining match; ideal arrival ranks: fresh rank on add and on replenishment from hidden, kept on partial fill and same-price amend; at every transaction no other resting order with displayed quantity may have a smaller rank than the maker. Pairs explained by the listed known findings (KF-C04-1 waiting order was re-queued at the tail by an earlier match; KF-C04-2 the maker's id has a stale/duplicate ticket) are counted, everything else is a violation. Non-trivial = >=3 orders resting at some match, >=2 matches, one of them after a replenishment, an amendment or a re-add.",
-    quick: 300_000,
-    thorough: 12_000_000,
+    quick: 200_000,
+    thorough: 6_000_000,
     twin_without_reads: false,
     assumptions: &["known-finding attribution is by monotone flags (DESIGN §C04 limitation)"],
 };
@@ -142,8 +148,8 @@ pub const C06: HistCheck = HistCheck {
     cfg: c06_cfg,
     nontrivial: |f| f.zero_display_at_match || f.three_round_match,
     rule: "stateful histories with zero quantities allowed (zero-quantity adds, amend-to-0, reserve replenish amount 0, bursts of up to 80 such orders, churn leaving up to ~1030 dead tickets), iceberg/reserve-heavy; every match_order runs under a budget of shared-memory steps derived from the number of resting orders, tickets and replenishment rounds a correct sweep needs (exceeding it = non-termination, detected without wall clock); after each match executed >= min(requested, displayed before) and remaining>0 implies no listed order displays quantity. Non-trivial = a match issued while an order with display 0 and hidden>0 rests, or a match with >=3 replenishments.",
-    quick: 300_000,
-    thorough: 12_000_000,
+    quick: 200_000,
+    thorough: 6_000_000,
     twin_without_reads: false,
     assumptions: &["match sizes are clamped so that a correct sweep needs <= ~120 replenishment rounds (DESIGN §C06)"],
 };
@@ -154,8 +160,8 @@ pub const C07: HistCheck = HistCheck {
     cfg: c07_cfg,
     nontrivial: |f| f.update_on_touched_order,
     rule: "stateful histories mixing all five update kinds (present/absent ids, same/other price) with adds, matches and read-only calls; cancel/move must return the model's current order field for field and remove only it; absent id => Ok(None) and identical fingerprint; same-price UpdatePrice => Err and identical fingerprint; same-price amend returns the order now listed (new display for Standard/PostOnly/Iceberg, either for the other four), others untouched; every read-only call leaves the fingerprint (price, aggregates, listing, statistics) unchanged; metamorphic twins, the first and third as *blind* replays of the recorded calls on fresh levels (no observation by the harness between calls): (1) all reads deleted => identical results for every other operation; (3) all reads but the last deleted => the last read returns the same content; (2) the same history with an extra order added and removed again right away (cancel / move / price+quantity / replace to another price) at a generated point must give identical results for every other operation and the same final listing. Non-trivial = an update applied to an order after a partial fill or replenishment.",
-    quick: 240_000,
-    thorough: 8_000_000,
+    quick: 160_000,
+    thorough: 4_000_000,
     twin_without_reads: true,
     assumptions: &["for TrailingStop/Pegged/MarketToLimit/Reserve a same-price amend may keep or change the display (statement leaves it open; existing tests pin the no-op)"],
 };
@@ -166,8 +172,8 @@ pub const C15: HistCheck = HistCheck {
     cfg: c15_cfg,
     nontrivial: |f| f.sweep_multi && f.removals >= 1,
     rule: "sequential half: stateful histories on a fresh level (positive quantities, no rebuild); after every operation orders_added == adds, orders_removed == successful cancels+moves, quantity_executed == sum of transaction quantities, value_executed == that x level price. Concurrent half: thread programs under the deterministic scheduler (see sched engine). Non-trivial (sequential) = a match trading several orders plus at least one removal.",
-    quick: 200_000,
-    thorough: 8_000_000,
+    quick: 160_000,
+    thorough: 5_000_000,
     twin_without_reads: false,
     assumptions: &["order.price == level price (DESIGN §8)"],
 };
@@ -238,7 +244,17 @@ fn record_facts(st: &mut Stats, f: &Facts, h: &History) {
 
 /// Run one history for check `hc`; Err = violation of hc's property.
 pub fn eval(hc: &HistCheck, h: &History, st: &mut Stats, excuse: (bool, bool)) -> Result<(), String> {
+    let t0 = std::time::Instant::now();
     let (it, results) = run_history_with(h, false, false, excuse);
+    if std::env::var_os("VERIF_SLOW").is_some() && t0.elapsed().as_millis() > 100 {
+        let big: Vec<String> = h.ops.iter().filter_map(|o| match o {
+            Op::Churn { n, .. } => Some(format!("Churn{n}")),
+            Op::Burst { n, .. } => Some(format!("Burst{n}")),
+            Op::AmendChurn { n, .. } => Some(format!("AmendChurn{n}")),
+            _ => None,
+        }).collect();
+        eprintln!("slow history {} ms: ops={} max_rounds={} bulk={:?} txs={} resting_end={}", t0.elapsed().as_millis(), h.ops.len(), h.max_rounds, big, it.facts.txs, it.model.len());
+    }
     record_facts(st, &it.facts, h);
     if (hc.nontrivial)(&it.facts) {
         if st.nontrivial(hash_of(h)) && st.want_sample() {
@@ -256,16 +272,38 @@ pub fn eval(hc: &HistCheck, h: &History, st: &mut Stats, excuse: (bool, bool)) -
         if let Some(g) = h.ghost {
             let at = crate::gen::pick(g.at, h.ops.len() + 1);
             let mut h2 = h.clone();
-            h2.ops.insert(at, Op::GhostRemove { via: g.via });
-            h2.ops.insert(at, Op::GhostAdd { spec: g.spec });
+            if g.pairs == 0 {
+                h2.ops.insert(at, Op::GhostRemove { via: g.via });
+                h2.ops.insert(at, Op::GhostAdd { spec: g.spec });
+            } else {
+                let mut sp = g.spec;
+                sp.display = sp.display.max(1);
+                h2.ops.insert(at, Op::Churn { n: g.pairs, spec: sp, ghost: true });
+            }
             let (it3, results3) = run_history_with(&h2, false, false, excuse);
             st.count("ghost_twin_runs");
             let a: Vec<&OpResult> = results.iter().collect();
-            let b: Vec<&OpResult> = results3.iter().filter(|r| !matches!(r, OpResult::Ghost)).collect();
+            // drop the inserted operation's own result (a Churn inserted at `at` yields one Bulk)
+            let mut skip_bulk_at = if g.pairs > 0 { Some(at) } else { None };
+            let b: Vec<&OpResult> = results3
+                .iter()
+                .enumerate()
+                .filter(|(i, r)| {
+                    if matches!(r, OpResult::Ghost) {
+                        return false;
+                    }
+                    if skip_bulk_at == Some(*i) {
+                        skip_bulk_at = None;
+                        return false;
+                    }
+                    true
+                })
+                .map(|(_, r)| r)
+                .collect();
             if !it3.dead && a != b {
                 let i = a.iter().zip(b.iter()).position(|(x, y)| x != y).unwrap_or(a.len().min(b.len()));
                 return Err(format!(
-                    "adding an extra order and removing it again right away (before op #{}, via update kind {}) changes a later result (op #{}): without {:?}, with {:?}",
+                    "adding extra order(s) and removing them again right away (before op #{}, via update kind {}) changes a later result (op #{}): without {:?}, with {:?}",
                     at + 1,
                     g.via % 4,
                     i + 1,
@@ -489,6 +527,7 @@ pub fn witnesses() -> Vec<(&'static str, &'static str, History)> {
         hold: false,
         gen_start: 0,
         wrap_ok: false,
+        max_rounds: 0,
     };
     vec![
         (
